@@ -78,3 +78,20 @@ func TestSecret(t *testing.T) {
 	}
 	fmt.Printf("SCENARIOS-RUN %d\n", n)
 }
+
+// TestTLS replays TLS configuration / CA rotation histories ($VERIF_IN) with real handshakes.
+func TestTLS(t *testing.T) {
+	in, out := os.Getenv("VERIF_IN"), os.Getenv("VERIF_OUT")
+	if in == "" || out == "" {
+		t.Skip("VERIF_IN / VERIF_OUT not set")
+	}
+	tmp := os.Getenv("VERIF_TMP")
+	if tmp == "" {
+		tmp = t.TempDir()
+	}
+	n, err := runTLSFile(in, out, tmp)
+	if err != nil {
+		t.Fatalf("tls driver: %v (after %d scenarios)", err, n)
+	}
+	fmt.Printf("SCENARIOS-RUN %d\n", n)
+}
